@@ -188,6 +188,43 @@ def exportText (c : Compound) (rs : Redirs) : Str :=
   if isBrace c then "() ".toList ++ (printCompound c ++ printRedirs rs)
   else "() { \n".toList ++ (printCompound c ++ printRedirs rs) ++ "\n}".toList
 
+/-! ## The function table (`FunctionEnv`: a map from names to definitions)
+
+`declare -f name`, `type name`, `typeset -f`, the listings and the export all look the name up in the
+shell's one function table and print the stored definition.  Defining (from any place: top level, a
+function body, `eval`, a sourced file) replaces the entry; `unset -f` removes it; every other step of
+a script (`other`: entering a function, a brace group, a loop, setting an option, printing) leaves the
+table alone. -/
+
+structure Def where
+  c : Compound
+  rs : Redirs
+
+inductive FOp where
+  | define (n : Str) (d : Def)
+  | unset (n : Str)
+  | other
+
+abbrev FTab := List (Str × Def)
+
+def FTab.step (t : FTab) : FOp → FTab
+  | .define n d => (n, d) :: t.filter (fun e => e.1 != n)
+  | .unset n => t.filter (fun e => e.1 != n)
+  | .other => t
+
+def FTab.run (t : FTab) (ops : List FOp) : FTab := ops.foldl FTab.step t
+
+def FTab.get (t : FTab) (n : Str) : Option Def := (t.find? (fun e => e.1 == n)).map (·.2)
+
+/-- what `declare -f n` prints (nothing, status 1, when `n` is not a function) -/
+def declareF (t : FTab) (n : Str) : Option Str := (t.get n).map (fun d => printFn n d.c d.rs)
+
+/-- does the step define or remove `n`? -/
+def FOp.touches (n : Str) : FOp → Bool
+  | .define m _ => m == n
+  | .unset m => m == n
+  | .other => false
+
 /-! ## Reading the printed text back: the token level
 
 `lex` cuts a text into maximal runs: words (neither blank, newline nor operator character), runs of
